@@ -42,6 +42,18 @@ Inductive cf_mode := CfContinuation (bi be : branch_ctx) | CfOldPieces | CfUnkno
       ConstCached   through a memoised helper keyed on the module: at the module's FIRST lookup in the
                     process (seeded C06-3) *)
 Inductive const_mode := ConstAtCall | ConstCached | ConstUnknown.
+(** keyword arguments of a nested call (_handle_call):
+      KwRefused    `if node.keywords: raise NotImplementedError`                       (the shipped code)
+      KwAppended   the keyword VALUES are appended to the positional arguments in the order they are written
+                   and bound positionally by the recursive fn_to_sympy -- never matched by name (seeded C06-7) *)
+Inductive kw_mode := KwRefused | KwAppended | KwUnknown.
+(** a single-name assignment `x = e` whose right-hand side has no expression because _handle_expr RETURNED None
+    (a call of something that is not a function of the module, a callee that is refused, an arity mismatch --
+    not an exception):
+      AnRefuse     `if value is None: return None`                                      (the shipped code)
+      AnStore      the None is stored in the symbol table; _handle_name's `ctx.symbols.get(id) is None` then
+                   takes the local for "not a local" and reads the module constant of that name (seeded C06-6) *)
+Inductive assign_none_mode := AnRefuse | AnStore | AnUnknown.
 
 Record facts := mkFacts {
   f_bin : list (binop * binop);      (* _handle_binop: ast operator -> sympy operation *)
@@ -52,12 +64,13 @@ Record facts := mkFacts {
   f_tuple : tuple_mode;              (* a, b = b, a : all right-hand sides first? *)
   f_stmt_else : stmt_else;           (* unknown statement: raise / skip *)
   f_cf : cf_mode;                    (* shape of the ast.If block of _handle_fn_body *)
-  f_kw_refused : bool;               (* _handle_call refuses keyword arguments *)
+  f_kw : kw_mode;                    (* _handle_call: keyword arguments refused / appended positionally *)
   f_const_float : bool;              (* ast.Constant int/float -> sympy.Float(val) *)
   f_known_wrapped : bool;            (* KNOWN_FNS results go through sympy.Float(...) (symbolic args refuse) *)
   f_const : const_mode;              (* when module / attribute float constants are read *)
   f_fallback : fb_mode;              (* a body that falls off its end: last assigned variable / ValueError *)
-  f_arity : arity_mode               (* zip(fn_args, model_args, strict=True) and when it is skipped *)
+  f_arity : arity_mode;              (* zip(fn_args, model_args, strict=True) and when it is skipped *)
+  f_assign_none : assign_none_mode   (* `x = e` where e translates to None: refuse / store the None *)
 }.
 
 Definition symtab := list (name * sexpr).
@@ -152,7 +165,11 @@ Section Translate.
         | _, _, _ => None
         end
     | ECall f args => call_with (targs sigma args) f
-    | ECallKw f args => if f_kw_refused fs then None else call_with (targs sigma args) f
+    | ECallKw f _ args =>
+        match f_kw fs with
+        | KwAppended => call_with (targs sigma args) f    (* written order, positional: the slots are ignored *)
+        | _ => None
+        end
     | EOther => None
     end
   with tcond (sigma : symtab) (c : cond) {struct c} : option scond :=
@@ -185,6 +202,40 @@ Section Translate.
         | Some s, Some ss => Some (s :: ss)
         | _, _ => None
         end
+    end.
+
+  (** Did `_handle_expr` RETURN None (rather than raise)?  Only meaningful where [texpr sigma e = None].
+      _handle_call translates the arguments in order -- the first one without an expression decides (it returned
+      None: `return None`; it raised: the exception propagates) -- and when all have one, every remaining way to
+      fail is a `return None` (py_fn is None; the recursive fn_to_sympy catches its own TypeError / ValueError /
+      NotImplementedError and returns None).  Every other node with a None operand raises (None + x, None > x,
+      -None, sympy.Eq(None, x)), an unbound name is a KeyError, an unsupported node NotImplementedError.
+      (Not modelled: a KeyError inside the CALLEE escapes the nested fn_to_sympy as well.) *)
+  Fixpoint tnone (sigma : symtab) (e : expr) {struct e} : bool :=
+    match e with
+    | ECall _ args => tnone_args sigma args
+    | ECallKw _ _ args => match f_kw fs with KwAppended => tnone_args sigma args | _ => false end
+    | _ => false
+    end
+  with tnone_args (sigma : symtab) (es : exprs) {struct es} : bool :=
+    match es with
+    | ENil => true
+    | ECons e r => match texpr sigma e with Some _ => tnone_args sigma r | None => tnone sigma e end
+    end.
+
+  (** `ctx.symbols[x] = None`: every reader goes through `ctx.symbols.get(x) is None`, for which a stored None
+      and a missing key are the same thing *)
+  Fixpoint remove_sym (x : name) (sigma : symtab) : symtab :=
+    match sigma with
+    | [] => []
+    | (y, s) :: r => if N.eqb y x then remove_sym x r else (y, s) :: remove_sym x r
+    end.
+
+  (** the table after `x = e` when e has no expression ([None] = the body is refused) *)
+  Definition assign_none (sigma : symtab) (x : name) (e : expr) : option symtab :=
+    match f_assign_none fs with
+    | AnStore => if tnone sigma e then Some (remove_sym x sigma) else None
+    | _ => None
     end.
 
   Fixpoint bind_syms (xs : list name) (ss : list sexpr) (sigma : symtab) : symtab :=
@@ -273,7 +324,11 @@ Section Translate.
             | SAssign x e =>
                 match texpr sigma e with
                 | Some v => tbody fuel' body rest ((x, v) :: sigma)
-                | None => TRefused
+                | None =>
+                    match assign_none sigma x e with
+                    | Some sigma' => tbody fuel' body rest sigma'
+                    | None => TRefused
+                    end
                 end
             | STuple xs es =>
                 match ttuple sigma xs es with
@@ -347,7 +402,11 @@ Section Translate.
             | SAssign x e =>
                 match texpr sigma e with
                 | Some v => tbody_sh bi be fuel' body rest ((x, v) :: sigma)
-                | None => (TRefused, sigma)
+                | None =>
+                    match assign_none sigma x e with
+                    | Some sigma' => tbody_sh bi be fuel' body rest sigma'
+                    | None => (TRefused, sigma)
+                    end
                 end
             | STuple xs es =>
                 match ttuple sigma xs es with
@@ -506,7 +565,7 @@ Definition expected_facts : facts :=
     [(Add, Add); (Sub, Sub); (Mul, Mul); (Div, Div); (Pow, Pow); (Mod, Mod); (FloorDiv, FloorDiv)]
     [(UAdd, UAdd); (USub, USub)]
     [(Gt, RelGt); (GtE, RelGe); (Lt, RelLt); (LtE, RelLe); (CEq, RelEq); (CNe, RelNe)]
-    true SubsSim TupSim StmtRaise (CfContinuation BrCopy BrCopy) true true true ConstAtCall C06_expected_fallback C06_expected_arity.
+    true SubsSim TupSim StmtRaise (CfContinuation BrCopy BrCopy) KwRefused true true ConstAtCall C06_expected_fallback C06_expected_arity AnRefuse.
 
 (** --- helpers for the correspondence files ------------------------------------------------ *)
 Definition val_of (l : list (name * Q)) : valuation := fun x => match assoc x l with Some q => Some (Qred q) | None => None end.
